@@ -13,8 +13,8 @@ import GeomV.C19.Ties
   for a known node, exactly the `nodeMap` images of the keys of `neighbors[n]` in the order the map was visited; `nil` for an
   unknown node.  `tie_From_mem`: an id is listed iff `neighbors[n]` has that key, i.e. (by `Rep.nb`) iff the model has a
   link between `n` and it (`neighbor net n v ≠ none`) — under ANY visiting order that keeps the entries (`Perm`).
-  (That the listed ids are `neighborIds` WITHOUT repetition needs "keys of an inner map are distinct", which `mapSet`
-  maintains but `Rep` does not record yet: not proved.)
+  (That the listed ids are a PERMUTATION of `neighborIds` — no repetition — is `tie_From_perm` in TiesR.lean: `Rep.nbNodup`
+  records that the keys of an inner map are distinct, maintained by `mapSet`.)
 -/
 set_option linter.unusedVariables false
 set_option linter.unusedSimpArgs false
